@@ -186,6 +186,21 @@ class Monitor(Job):
                 eng().note("nt:follower-no-ping")
                 return
             if disc:
+                # the transport reports the loss after the monitor's disconnect(): cleanup must complete, a new generation must start,
+                # and monitoring must resume on the next connection
+                try:
+                    m.connector_connection_lost()
+                except (core.Escape, core.Inconclusive, core._Abort, core.Counterexample):
+                    raise
+                except Exception as e:
+                    check(False, "connection-lost handling after a monitor-initiated drop raised %s" % type(e).__name__)
+                    return
+                st = getattr(m, type(m).m._symbol)._state.method.__name__
+                check(st == "FLUSHING", "no new generation after the monitor dropped the connection (state %s)" % st)
+                check(m._timer is None and not clock.getDelayedCalls(), "a timer stays active after the dropped connection was lost")
+                m.rx_RECONNECTING()
+                m.connector_connection_made(FakeConn(clock, log))
+                check(m._timer is not None and m._timer.active(), "monitoring did not resume after a monitor-initiated reconnect")
                 D = disc[0][1]
                 # reference point: send time of the last ping whose pong was delivered before D (or connection time)
                 ref = t_conn
@@ -262,6 +277,17 @@ class Monitor(Job):
             if self.mode == "follower":
                 return "follower sent pings / dropped" if (sends or disc) else None
             if disc:
+                try:
+                    m.connector_connection_lost()
+                except Exception as e:
+                    return "interval %r: connection-lost handling after the monitor dropped a silent connection raised %r" % (I, e)
+                st = getattr(m, type(m).m._symbol)._state.method.__name__
+                if st != "FLUSHING" or m._timer is not None:
+                    return "interval %r: after the monitor-initiated drop the manager is %s, timer %r" % (I, st, m._timer)
+                m.rx_RECONNECTING()
+                m.connector_connection_made(FakeConn(clock, log))
+                if m._timer is None or not m._timer.active():
+                    return "interval %r: monitoring did not resume after a monitor-initiated reconnect" % (I,)
                 D = disc[0][1]
                 ref = answered[-1][0] if answered else 0.0
                 if self.mode in ("responsive", "loss"):
